@@ -190,6 +190,9 @@ type Sched struct {
 	MeanQuantum int64  `json:"mean_quantum,omitempty"` // 0: operations are atomic
 	Dist        string `json:"dist,omitempty"`         // uniform | geometric | stall
 	StarveTask  int    `json:"starve_task,omitempty"`  // 1-based; 0 = none
+	// SyncPreempt: probability (per mille) of handing the token over right at
+	// a synchronisation point (lock, unlock, once, pool get/put).
+	SyncPreempt int `json:"sync_preempt,omitempty"`
 }
 
 // Scenario is one simulated world.
@@ -204,6 +207,10 @@ type Scenario struct {
 	Monitor  int            `json:"monitor"` // check invariants every Nth slice (1 = every slice, 0 = only at operation boundaries)
 	Dump     bool           `json:"dump,omitempty"`
 	PoolSeed uint64         `json:"pool_seed,omitempty"`
+	// SyncPkgs: packages using synchronisation primitives (from the
+	// instrumenter); a change of their package-level state is not by itself
+	// a race and is not reported as I-GLOBAL (the worker still retires).
+	SyncPkgs []string `json:"sync_pkgs,omitempty"`
 }
 
 // OpResult is what one operation returned.
@@ -246,19 +253,21 @@ type Violation struct {
 
 // Stats are measured, per run.
 type Stats struct {
-	Steps       uint64   `json:"steps"`
-	Slices      int      `json:"slices"`
-	Switches    uint64   `json:"switches"` // pre-emptions inside an operation
-	Overlap     uint64   `json:"overlap"`  // pre-emptions while another op was in flight on the same module
-	Stalls      int      `json:"stalls"`
-	MonitorRuns int      `json:"monitor_runs"`
-	MapVisits   []uint32 `json:"map_visits"`      // per site, visits with >=2 entries
-	MapPermuted []uint32 `json:"map_permuted"`    // per site, visits with a non-identity order
-	Pairs       []string `json:"pairs,omitempty"` // "running|inflight" backend kind pairs seen on one module
-	PoolGets    uint64   `json:"pool_gets,omitempty"`
-	PoolDrops   uint64   `json:"pool_drops,omitempty"`
-	SwitchHash  string   `json:"switch_hash"` // hash of the (task,op,site) switch sequence
-	YieldCover  int      `json:"yield_cover,omitempty"`
+	Steps              uint64   `json:"steps"`
+	Slices             int      `json:"slices"`
+	Switches           uint64   `json:"switches"` // pre-emptions inside an operation
+	Overlap            uint64   `json:"overlap"`  // pre-emptions while another op was in flight on the same module
+	Stalls             int      `json:"stalls"`
+	MonitorRuns        int      `json:"monitor_runs"`
+	MapVisits          []uint32 `json:"map_visits"`      // per site, visits with >=2 entries
+	MapPermuted        []uint32 `json:"map_permuted"`    // per site, visits with a non-identity order
+	Pairs              []string `json:"pairs,omitempty"` // "running|inflight" backend kind pairs seen on one module
+	PoolGets           uint64   `json:"pool_gets,omitempty"`
+	PoolDrops          uint64   `json:"pool_drops,omitempty"`
+	SyncPoints         uint64   `json:"sync_points,omitempty"`
+	SyncedGlobalWrites int      `json:"synced_global_writes,omitempty"`
+	SwitchHash         string   `json:"switch_hash"` // hash of the (task,op,site) switch sequence
+	YieldCover         int      `json:"yield_cover,omitempty"`
 }
 
 type Result struct {
